@@ -70,6 +70,11 @@ def _gen_ops(r, scen, mc, nshared, n_ops):
             name = r.choice(["scale", "to_affine", "x", "y", "xy", "mul",
                              "mul_add", "eq", "add", "double", "neg", "pickle",
                              "mul_add_other"])
+        elif scen == "keys2":
+            # the everyday multi-threaded use: several keys on one curve
+            # (one shared generator), each thread verifying / signing
+            name = r.choice(["verify", "verify", "verify", "verify_digest",
+                             "sign_det", "sign_k", "to_string"])
         else:
             name = r.choice(["sign_det", "sign_k", "sign_ent", "verify",
                              "verify", "precompute", "to_string", "to_string",
@@ -101,7 +106,7 @@ def generate(run_seed, tier):
     toy = r.random() < 0.93
     cname = r.choice(TOYS if toy else NAMED)
     mc = mcurves.by_name(cname)
-    scen = r.choice(["gen", "gen", "point", "point", "key", "key"])
+    scen = r.choice(["gen", "gen", "point", "point", "key", "key", "keys2"])
     shared = []
     if scen == "gen":
         shared.append(dict(kind="gen"))
@@ -120,7 +125,8 @@ def generate(run_seed, tier):
     else:
         # one key, sometimes two (they share the curve's generator and its
         # lazily built table), sometimes a bare point next to them
-        for _ in range(r.choice([1, 1, 2])):
+        for _ in range(r.choice([1, 1, 2]) if scen == "key"
+                       else r.choice([2, 2, 3])):
             shared.append(dict(kind="key", d=libx.key_scalar(r, mc.n),
                                unscaled=r.random() < 0.6,
                                z=r.randrange(2, mc.p),
@@ -129,6 +135,12 @@ def generate(run_seed, tier):
     ro = core.rng(run_seed, "ops")
     threads = [_gen_ops(ro, scen, mc, len(shared), ro.choice([1, 1, 2]))
                for _ in range(nthreads)]
+    if scen == "keys2":
+        # thread i mostly works with key i
+        for ti, th in enumerate(threads):
+            for op in th:
+                if ro.random() < 0.8:
+                    op["s"] = ti % len(shared)
     gran = r.choice(["attr", "attr", "line", "line", "attr+line"])
     rs = core.rng(run_seed, "sched")
     kind = rs.choice(["random", "pct", "park", "park", "park"])
